@@ -11,7 +11,10 @@ import gbigsmiles  # noqa: E402
 for line in sys.stdin:
     text, seed = json.loads(line)
     try:
-        m = gbigsmiles.Molecule(text)
+        if text.startswith("SYSTEM:"):
+            m = gbigsmiles.System(text[7:])
+        else:
+            m = gbigsmiles.Molecule(text)
         g = m.generate(rng=np.random.default_rng(seed))
         out = {"smiles": g.smiles, "weight": float(g.weight), "str": str(m), "noext": m.generate_string(False), "generable": bool(m.generable)}
     except Exception as exc:
